@@ -80,8 +80,13 @@ static Result run_c08(const Case &c) {
     Config g = cfg_from(c);
     if (ref::is_isa(g.backend) && !isa_available()) { r.skipped = true; return r; }
     uint64_t len = (uint64_t)c.get("len");
+    // where the descriptor counter stands (descriptor values are input too): with wrap=1 the instance under test is
+    // created just below INT_MAX and a second create then wraps the counter while the first stays live
+    next_backend_desc = (int)c.get("counter", 0);
     Instance in(g);
     if (!in.ok()) { r.fail("create refused rc=" + std::to_string(in.desc)); return r; }
+    std::unique_ptr<Instance> after_wrap;
+    if (c.get("wrap")) { Config g2 = g; if (g2.backend != ref::B_XOR) { g2.k = 2; g2.m = 1; g2.hd = 1; } after_wrap.reset(new Instance(g2)); r.cls("counter_wrapped_while_live"); }
     uint64_t unit = (uint64_t)g.k * ref::word_bytes(g);
     int fs = liberasurecode_get_fragment_size(in.desc, (int)len);
     int al = liberasurecode_get_aligned_data_size(in.desc, len);
@@ -108,7 +113,9 @@ static Result run_c08(const Case &c) {
     int d = in.desc;
     liberasurecode_instance_destroy(d);
     in.desc = -1;
-    for (int bad : {d, d + 7919, -1, 0, -d, INT32_MIN, INT32_MAX}) {
+    int never = d > INT32_MAX - 7919 ? d - 7919 : d + 7919;       // a descriptor that was never issued (no overflow at the top of the range)
+    if (after_wrap && never == after_wrap->desc) never = d - 3;
+    for (int bad : {d, never, -1, 0, -d, INT32_MIN, (d == INT32_MAX || (after_wrap && after_wrap->desc == INT32_MAX)) ? -2 : INT32_MAX}) {
         if (liberasurecode_get_fragment_size(bad, (int)len) >= 0) r.fail("get_fragment_size accepted unknown descriptor " + std::to_string(bad));
         if (liberasurecode_get_aligned_data_size(bad, len) >= 0) r.fail("get_aligned_data_size accepted unknown descriptor " + std::to_string(bad));
         if (liberasurecode_get_minimum_encode_size(bad) >= 0) r.fail("get_minimum_encode_size accepted unknown descriptor " + std::to_string(bad));
@@ -128,6 +135,9 @@ static Case gen_c08() {
     c.set("len", (int64_t)len);
     c.set("seed", (int64_t)pick_seed());
     c.set("encode", (len <= (1 << 16) || opts().tier == "thorough" || coin(1, 20)) ? 1 : 0);
+    bool wrap = coin(1, 6);
+    c.set("wrap", wrap ? 1 : 0);
+    c.set("counter", wrap ? INT32_MAX - 1 - pick(0, 1) * 0 : (coin(1, 3) ? pick(0, 100000) : 0));
     return c;
 }
 static void sweep_c08() {
